@@ -1213,7 +1213,12 @@ func (e *Engine) callBuiltin(caller *frame, pos token.Pos, fn *ssa.Builtin, args
 		return e.goInt(n)
 
 	case "close":
-		panic(unsupported{"close(chan)"})
+		// closing a channel nobody receives from in a sequential harness has no observable
+		// effect; sends and receives themselves stay unsupported
+		if c, ok := args[0].(*chanV); ok && c != nil {
+			return nil
+		}
+		panic(unsupported{"close of a nil or foreign channel"})
 
 	case "delete":
 		m := args[0].(*MapObj)
